@@ -183,3 +183,30 @@ def wrapper_env_attr(tree: Tree) -> str:
         raise AnalysisError(f"Wrapper.__init__ stores the wrapped environment in {names} (expected exactly one attribute)")
     _WRAPPER_ENV_ATTR[id(tree)] = names[0]
     return names[0]
+
+
+_BORROW_CACHE: Dict[str, object] = {}
+
+
+def borrow(res, module: str, rule_map: Dict[str, str], envs=None, only_if=None) -> int:
+    """Re-state obligations decided by another property's rule module under this property's rule ids -- used where one
+    structural fact is a necessary condition of several properties (e.g. a stale action mask breaks C04 and, in the
+    environments whose step trusts the mask, C06).  `envs`: class names the obligation's function must belong to;
+    `only_if(ob)`: extra filter; an obligation filtered out by `only_if` while violated is kept as holding."""
+    import importlib
+    if module not in _BORROW_CACHE:
+        _BORROW_CACHE[module] = importlib.import_module("jstat.rules." + module).check("quick")
+    src = _BORROW_CACHE[module]
+    n = 0
+    for ob in src.obligations:
+        for s_rule, new in rule_map.items():
+            if ob.rule != s_rule and not ob.rule.startswith(s_rule + "."):
+                continue
+            if envs is not None and not any(f".{e}." in f".{ob.func}." or ob.func.endswith("." + e) for e in envs):
+                continue
+            ok = ob.ok
+            if ok is False and only_if is not None and not only_if(ob):
+                continue
+            res.add(new, ob.site, ob.func, ob.construct, ok, ob.detail, ob.nontrivial)
+            n += 1
+    return n
